@@ -95,6 +95,7 @@ type Template struct {
 }
 
 type ContractSet struct {
+	SharedPkg map[string]string // "Type.Field" -> package of the directive
 	Shared    map[string]string // "Type.Field" -> reason: fields a deep copy shares with its source (by pointer) instead of copying
 	Templates []Template
 	Funcs map[string]*Contract
@@ -216,6 +217,10 @@ func (cs *ContractSet) loadFile(path string) error {
 				reason = strings.TrimSpace(parts[1])
 			}
 			cs.Shared[strings.TrimSpace(parts[0])] = reason
+			if cs.SharedPkg == nil {
+				cs.SharedPkg = map[string]string{}
+			}
+			cs.SharedPkg[strings.TrimSpace(parts[0])] = pkg
 		case "spec-fields":
 			cs.Templates = append(cs.Templates, Template{Pkg: pkg, Kw: "spec", Text: r.text, File: path, Line: r.line})
 		case "requires", "ensures", "invariant", "decreases":
